@@ -145,7 +145,7 @@ func c13Builders(p *Prog, ib *inbound, r *Report) {
 		}
 		r.Check("R2", FnName(fn), ok && len(calls) == nHdr, pos, fmt.Sprintf("%d headers built, %d own counter calls", nHdr, len(calls)))
 	}
-	r.Floor("R2", "header builders", n, 5)
+	r.Floor("R2", "header builders", n, 3)
 }
 
 func c13WhoMaySend(p *Prog, ib *inbound, r *Report) {
